@@ -32,7 +32,13 @@ func c16(e *env) {
 		key := bytes.Repeat([]byte{'k'}, klen)
 		key[klen-1] = byte('a' + klen%26)
 		lens := map[int]bool{}
-		for _, k := range ks {
+		kk := ks
+		if e.tier != "thorough" && (klen == 1 || klen == 125 || klen == 250) {
+			// the chunk-key suffix grows at 10 and at 100 chunks: those boundaries and the maximum
+			// for a few key lengths in the quick tier too
+			kk = append(append([]int{}, ks...), 10, 11, 100, 101, 999)
+		}
+		for _, k := range kk {
 			if (k > 11) && e.tier == "thorough" && klen%25 != 0 && klen != 1 && klen != 249 {
 				continue // the very long values only for a subset of key lengths
 			}
